@@ -365,6 +365,25 @@ def desugar(body, methods, ledger, fn):
             if pat is None:
                 raise ExtractError("%s: and_then without closure literal" % fn)
             new = "(match %s { %s(%s) => %s, %s => %s })" % (recv, O_SOME, pat, cbody, O_NONE, O_NONE)
+        elif meth == "map_or_else":
+            # map_or_else(|| D, |x| E)
+            depth, cut = 0, None
+            am = mask(arg)
+            for k, ch in enumerate(am):
+                if ch in "([{":
+                    depth += 1
+                elif ch in ")]}":
+                    depth -= 1
+                elif ch == "," and depth == 0:
+                    cut = k
+                    break
+            if cut is None:
+                raise ExtractError("%s: map_or_else with unexpected arguments" % fn)
+            p0, dflt = _split_closure(arg[:cut].strip())
+            pat, cbody = _split_closure(arg[cut + 1:].strip().rstrip(","))
+            if p0 is None or p0 != "" or pat is None:
+                raise ExtractError("%s: map_or_else without closure literals" % fn)
+            new = "(match %s { %s(%s) => %s, %s => %s })" % (recv, O_SOME, pat, cbody, O_NONE, dflt)
         elif meth == "map_or":
             # map_or(DEFAULT, |x| E)
             depth, cut = 0, None
